@@ -985,6 +985,8 @@ func (st *State) valueEq(a, b Value) *Term {
 					return Eq(sx, sy)
 				}
 			}
+			// other element types: the same window of the same backing array (alias identity)
+			return And(Eq(st.norm(x.Back), st.norm(y.Back)), Eq(x.Off, y.Off), Eq(x.Len, y.Len))
 		case Scalar:
 			return st.valueEq(b, a)
 		}
